@@ -10,4 +10,9 @@ void print_bytes(const char* key, const unsigned char* b, size_t n);
 void print_u64s(const char* key, const uint64_t* a, size_t n);
 void print_shex(int64_t v);
 void harness_init(void);
+/* result lines go to R (the original stdout); fd 1 is redirected to stderr at start-up so that
+   messages printed by the library cannot corrupt the one-line-per-case protocol */
+#include <stdio.h>
+extern FILE* R;
+#define printf(...) fprintf(R, __VA_ARGS__)
 #endif
